@@ -67,7 +67,16 @@ def flat_cases(tier):
                                   'pattern': st.lists(_flat_pat, min_size=2, max_size=4).map('\n'.join)},
                                  optional={'continue': st.sampled_from(['_x_ + _y_', '_x_ + 1', '_y_ + _x_', '_z_ = _x_ + _y_', 'print(_x_)', '_x_ + ___', '_f_()',
                                                                           # the same expression placeholder names as the first pattern may use
-                                                                          '_z_ = __e1__', 'print(__e1__)', '__e1__ + _x_', '_x_ + __e1__', '_y_ = __e2__', 'print(__e2__)'])})
+                                                                          '_z_ = __e1__', 'print(__e1__)', '__e1__ + _x_', '_x_ + __e1__', '_y_ = __e2__', 'print(__e2__)',
+                                                                          '_x_', '_y_'])})        # a bare placeholder as the whole continuation
+
+
+def flat_continued_cases(tier):
+    """The first pattern binds __e1__; the continuation uses the same name inside a commutative operation (either operand) or elsewhere."""
+    first = st.sampled_from(['print(__e1__)', '_x_ = __e1__', '_x_ = _y_ + __e1__', '_f_()\nprint(__e1__)', '_x_ = __e1__\nprint(_x_)'])
+    cont = st.sampled_from(['__e1__ + _y_', '_y_ + __e1__', '__e1__ + ___', '___ + __e1__', '_z_ = __e1__ + ___', '_z_ = ___ + __e1__', 'print(__e1__)', '_z_ = __e1__'])
+    return st.fixed_dictionaries({'flat': st.just(True), 'code': st.lists(_flat_stmt, min_size=3, max_size=7).map(lambda l: '\n'.join(l) + '\n'),
+                                  'pattern': first, 'continue': cont})
 
 
 def _node_embeds(p, s, binding):
@@ -160,7 +169,22 @@ def flat_embedding_exists(pattern, code):
     return go(0, 0, {})
 
 
-STRATEGIES = {'pairs': cases, 'flat': flat_cases}
+STRATEGIES = {'pairs': cases, 'flat': flat_cases, 'flatcont': flat_continued_cases}
+
+
+def class_cases(tier):
+    """One placeholder used as a class name and as a variable / called function / argument: a single identifier throughout."""
+    patterns = ['class _x_:\n    pass\n_x_ = 1', 'class _c_:\n    pass\n_c_()', 'class _c_:\n    pass\nprint(_c_)', 'class _c_:\n    pass\n_v_ = _c_()',
+                'class _c_:\n    pass\n_c_ = _c_()', 'def _f_():\n    pass\nclass _f_:\n    pass', 'class _c_(_b_):\n    pass\n_b_ = 1']
+    programs = ['class A:\n    pass\nb = 1', 'class A:\n    pass\nA = 1', 'class A:\n    pass\nB()', 'class A:\n    pass\nA()', 'class A:\n    pass\nprint(A)',
+                'class A:\n    pass\nprint(b)', 'class A:\n    pass\nx = A()', 'class A:\n    pass\nx = B()', 'class A:\n    pass\nA = A()',
+                'def g():\n    pass\nclass A:\n    pass', 'def A():\n    pass\nclass A:\n    pass', 'class A(B):\n    pass\nB = 1', 'class A(B):\n    pass\nC = 1']
+    for pat in patterns:
+        for prog in programs:
+            yield {'flat': True, 'code': prog + '\n', 'pattern': pat}
+
+
+ENUMS = {'classes': class_cases}
 
 
 # ---------------------------------------------------------------------------------------------------------
@@ -520,4 +544,5 @@ def judge(case):
 
 def plan(tier):
     n = 500 if tier == 'quick' else 20000
-    return [Task('hyp', 'pairs', shards=12, examples=scale(n)), Task('hyp', 'flat', shards=4, examples=scale(4 * n))]
+    return [Task('hyp', 'pairs', shards=12, examples=scale(n)), Task('hyp', 'flat', shards=3, examples=scale(4 * n)),
+            Task('hyp', 'flatcont', shards=1, examples=scale(2 * n)), Task('enum', 'classes', shards=1)]
